@@ -29,6 +29,10 @@ BASE = {
     'mol': (F(1), 0, D(N=1)), 'N': (F(1), 0, FORCE), 'J': (F(1), 0, ENERGY), 'W': (F(1), 0, D(M=1, L=2, T=-3)),
     'Pa': (F(1), 0, PRESSURE), 'C': (F(1), 0, D(I=1, T=1)), 'Hz': (F(1), 0, D(T=-1)), 'cal': (F('4.184'), 0, ENERGY),
     'eV': (F('1.602176634e-19'), 0, ENERGY), 'L': (F(1, 1000), 0, D(L=3)),
+    # SI derived units with special names that the pinned tree does not use yet
+    'V': (F(1), 0, D(M=1, L=2, T=-3, I=-1)), 'Ω': (F(1), 0, D(M=1, L=2, T=-3, I=-2)), 'S': (F(1), 0, D(M=-1, L=-2, T=3, I=2)), 'F': (F(1), 0, D(M=-1, L=-2, T=4, I=2)),
+    'Wb': (F(1), 0, D(M=1, L=2, T=-2, I=-1)), 'T': (F(1), 0, D(M=1, T=-2, I=-1)), 'H': (F(1), 0, D(M=1, L=2, T=-2, I=-2)), 'cd': (F(1), 0, D(J=1)), 'lm': (F(1), 0, D(J=1)),
+    'lx': (F(1), 0, D(J=1, L=-2)), 'Bq': (F(1), 0, D(T=-1)), 'Gy': (F(1), 0, D(L=2, T=-2)), 'Sv': (F(1), 0, D(L=2, T=-2)), 'kat': (F(1), 0, D(N=1, T=-1)), 'bar': (F(100000), 0, PRESSURE),
 }
 PREFIX = {'k': F(10) ** 3, 'M': F(10) ** 6, 'G': F(10) ** 9, 'T': F(10) ** 12, 'P': F(10) ** 15, 'm': F(10) ** -3, 'μ': F(10) ** -6,
           'u': F(10) ** -6, 'n': F(10) ** -9, 'd': F(1, 10), 'c': F(1, 100)}
@@ -49,6 +53,14 @@ ATOM = {
     'bar': (F(100000), 0, PRESSURE), 'atm': (F(101325), 0, PRESSURE),
     'particles': (1 / F('6.02214076e23'), 0, D(N=1)),
     '°C': (F(1), 0, D(H=1)), '°R': (F(5, 9), 0, D(H=1)), '°F': (F(5, 9), 0, D(H=1)),
+    # units the pinned tree does not have (SI brochure table 8, NIST SP 811 appendix B): a unit ADDED to the library with one of these symbols is decidable
+    'd': (F(86400), 0, D(T=1)), 'day': (F(86400), 0, D(T=1)), 'h': (F(3600), 0, D(T=1)), 'wk': (F(604800), 0, D(T=1)),
+    'au': (F(149597870700), 0, D(L=1)), 'Å': (F(1, 10 ** 10), 0, D(L=1)), 'fur': (F('201.168'), 0, D(L=1)), 'ftm': (F('1.8288'), 0, D(L=1)), 'ch': (F('20.1168'), 0, D(L=1)),
+    't': (F(1000), 0, D(M=1)), 'oz': (lbm / 16, 0, D(M=1)), 'gr': (lbm / 7000, 0, D(M=1)), 'Da': (F('1.66053906660e-27'), 0, D(M=1)),
+    'kgf': (g0, 0, FORCE), 'kip': (1000 * lbf, 0, FORCE), 'pdl': (lbm * ft, 0, FORCE),
+    'Torr': (F(101325, 760), 0, PRESSURE), 'mmHg': (F('133.322387415'), 0, PRESSURE), 'ksi': (1000 * lbf / inch ** 2, 0, PRESSURE),
+    'erg': (F(1, 10 ** 7), 0, ENERGY), 'Wh': (F(3600), 0, ENERGY), 'kWh': (F(3600000), 0, ENERGY), 'thm': (F('105505585.262'), 0, ENERGY),
+    'St': (F(1, 10 ** 4), 0, D(L=2, T=-1)), 'gon': (F(1, 200), 1, D()), 'grad': (F(1, 200), 1, D()),
 }
 # affine temperature units (unit type Temperature only): K = x * F + O
 AFFINE = {'°C': F('273.15'), '°F': F('459.67') * F(5, 9)}
@@ -116,6 +128,9 @@ EXTRA = {
     'hertz': ['Hz'], 'liter': ['L'], 'liters': ['L'], 'litre': ['L'], 'litres': ['L'], 'l': ['L'],
     'psf': [(lbf / ft ** 2, 0, PRESSURE)], 'psi': [(lbf / inch ** 2, 0, PRESSURE)],
     'celsius': ['°C'], 'rankine': ['°R'], 'fahrenheit': ['°F'],
+    'days': ['d'], 'week': ['wk'], 'weeks': ['wk'], 'furlong': ['fur'], 'furlongs': ['fur'], 'fathom': ['ftm'], 'fathoms': ['ftm'], 'tonne': ['t'], 'tonnes': ['t'],
+    'ounce': ['oz'], 'ounces': ['oz'], 'grain': ['gr'], 'grains': ['gr'], 'torr': ['Torr'], 'volt': ['V'], 'volts': ['V'], 'ohm': ['Ω'], 'ohms': ['Ω'], 'farad': ['F'], 'farads': ['F'],
+    'tesla': ['T'], 'teslas': ['T'], 'henry': ['H'], 'henries': ['H'], 'weber': ['Wb'], 'webers': ['Wb'], 'siemens': ['S'], 'candela': ['cd'], 'candelas': ['cd'], 'lumen': ['lm'], 'lumens': ['lm'], 'lux': ['lx'],
 }
 NAMEPREFIX = {'kilo': 'k', 'mega': 'M', 'giga': 'G', 'tera': 'T', 'peta': 'P', 'milli': 'm', 'micro': 'μ', 'nano': 'n', 'deci': 'd', 'centi': 'c',
               'kibi': 'ki', 'mebi': 'Mi', 'gibi': 'Gi', 'tebi': 'Ti', 'pebi': 'Pi'}
